@@ -103,6 +103,7 @@ func declaredFlat(s *Spec, num int) *Flat {
 		if s.AUniq != nil {
 			f.set("auniq", b01(*s.AUniq))
 		}
+		f.set("single", optS(s.ASF))
 	}
 	f.set("kind", s.Kind)
 	switch s.Kind {
@@ -125,6 +126,11 @@ func declaredFlat(s *Spec, num int) *Flat {
 		f.set("fmt", s.Kind)
 	case "bool":
 		f.set("const", optB(s.Const))
+	case "date", "dec":
+		f.set("min", optS(s.DMin))
+		f.set("max", optS(s.DMax))
+		f.set("emin", exclFlag(s.EMin))
+		f.set("emax", exclFlag(s.EMax))
 	case "enum":
 		f.set("ref", hexS("foo.v1."+s.enumTypeName()))
 		short := func(l []string) string {
@@ -350,16 +356,22 @@ func reflectedFlat(p *schema_j5pb.ObjectProperty) *Flat {
 		}
 	case *schema_j5pb.Field_Date:
 		f.set("kind", "date")
-		if r := t.Date.Rules; r != nil && (r.Minimum != nil || r.Maximum != nil) {
-			f.set("min", "other:daterules")
+		if r := t.Date.Rules; r != nil {
+			f.set("min", optS(r.Minimum))
+			f.set("max", optS(r.Maximum))
+			f.set("emin", exclFlag(r.ExclusiveMinimum))
+			f.set("emax", exclFlag(r.ExclusiveMaximum))
 		}
 		if lr := t.Date.ListRules; lr != nil {
 			f.set("lr", lrFromParts(lr.Filtering, nil, nil))
 		}
 	case *schema_j5pb.Field_Decimal:
 		f.set("kind", "dec")
-		if r := t.Decimal.Rules; r != nil && (r.Minimum != nil || r.Maximum != nil) {
-			f.set("min", "other:decrules")
+		if r := t.Decimal.Rules; r != nil {
+			f.set("min", optS(r.Minimum))
+			f.set("max", optS(r.Maximum))
+			f.set("emin", exclFlag(r.ExclusiveMinimum))
+			f.set("emax", exclFlag(r.ExclusiveMaximum))
 		}
 		if lr := t.Decimal.ListRules; lr != nil {
 			f.set("lr", lrFromParts(lr.Filtering, lr.Sorting, nil))
